@@ -183,11 +183,11 @@ class Expander:
             for el in seq:
                 t = el['t']
                 if t == 'tok':
-                    out.append({'t': 'tok', 'kind': el['kind'], 's': el['s'], 'site': sitekey})
+                    out.append({'t': 'tok', 'kind': el['kind'], 's': el['s'], 'site': sitekey, 'env': envid})
                 elif t == 'group':
-                    out.append({'t': 'group', 'd': el['d'], 'seq': conv(el['seq']), 'site': sitekey})
+                    out.append({'t': 'group', 'd': el['d'], 'seq': conv(el['seq']), 'site': sitekey, 'env': envid})
                 elif t == 'rep':
-                    out.append({'t': 'rep', 'seq': conv(el['seq']), 'sep': el['sep'], 'site': sitekey})
+                    out.append({'t': 'rep', 'seq': conv(el['seq']), 'sep': el['sep'], 'site': sitekey, 'env': envid})
                 elif t == 'hole':
                     a = holes.get(el['name'])
                     if a is None:
@@ -210,11 +210,12 @@ class Expander:
                             continue
                         else:
                             alts.append((conds, [{'t': 'leaf', 'kind': classify(leaf, a.get('ty')), 'term': leaf,
-                                                  'site': sitekey, 'name': el['name'], 'ty': a.get('ty')}]))
+                                                  'site': sitekey, 'name': el['name'], 'ty': a.get('ty'),
+                                                  'env': envid}]))
                     if len(alts) == 1 and not alts[0][0]:
                         out.extend(alts[0][1])
                     else:
-                        out.append({'t': 'choice', 'alts': alts, 'site': sitekey, 'name': el['name'], 'term': term})
+                        out.append({'t': 'choice', 'alts': alts, 'site': sitekey, 'name': el['name'], 'term': term, 'env': envid})
                 else:
                     out.append(el)
             return out
@@ -233,6 +234,13 @@ class Attr:
         seq = group['seq']
         self.path = seq[0]['s'] if seq and seq[0]['t'] == 'tok' else '?'
         self.args = seq[1]['seq'] if len(seq) > 1 and seq[1]['t'] == 'group' else []
+
+    def rel(self, owner_conds):
+        """conditions of this attribute beyond those of its owner (item/field/variant)"""
+        n = len(owner_conds)
+        if self.conds[:n] == tuple(owner_conds):
+            return self.conds[n:]
+        return self.conds
 
     def kv(self):
         """serde-style arguments: list of (key, value element or None)"""
